@@ -31,7 +31,8 @@ META = {
             "and colliding keys (two to three resizes), and every recorded history, including the for_all visit sequence "
             "on the quiescent table, is checked for linearizability by TLC against MapTrace.tla; plus free-running stress.",
     "note": "Bounded: 2-3 threads x <= 3 operations x <= 6 colliding keys, <= 4 tables for the model-driven part "
-            "(every transition of the model replayed, paths sampled); exhaustive interleavings on the code for 2-thread "
+            "(every transition of the replayed models executed on the code, paths sampled; the two largest models are "
+            "checked for refinement only, thorough tier); exhaustive interleavings on the code for 2-thread "
             "scenarios with fences merged into the following step; 4-16 threads x 6-10 operations sampled by stress. "
             "Callers respect the unique-key contract. x86-64 TSO; trusted: TLC, vsched cooperative scheduler, ndjson recorder.",
     "technique": "TLA+ refinement (TLC) + schedule replay on real code + linearizability trace validation (TLC)",
@@ -238,7 +239,7 @@ def run(ctx):
     d = ctx.stage("HashTable")
     exe = ctx.harness("ht_replay", ["harness/hashtable/ht_replay.c"])
     # quick: "migrate" is model-checked (with the coverage guard) but not replayed, its behaviours are close to "unlink"
-    scen = [SCENARIOS[0], SCENARIOS[2]] if ctx.quick else SCENARIOS + SCENARIOS_THOROUGH
+    scen = [SCENARIOS[0], SCENARIOS[2]] if ctx.quick else SCENARIOS
     nrandom = 150 if ctx.quick else 3000
     executions = []
     t0 = [time.time()]
@@ -257,6 +258,11 @@ def run(ctx):
         raise tlc.TLCError("sensitivity self-test: the variant of the model that does not migrate found items must "
                            "violate Placement/NoBad, got %r" % r.violated)
 
+    if not ctx.quick:
+        # larger scenarios (getput races, re-insertion; 10^5 states): refinement only, their graphs are too big to replay
+        for sc in SCENARIOS_THOROUGH:
+            mod, cfg = mc(d, sc)
+            ctx.tlc_check(d, mod, cfg, workers=2, timeout=3000)
     phase("model")
     # ---- 2. replay of model schedules on the real code ---------------------------------------------------
     total_sched = 0
